@@ -177,61 +177,83 @@ theorem hasIEMarker_comment (c : Str) (h : CommentOK c) :
     matchItems_stop_isSome '-' _ ieCondPat (by decide) c]
   simp [condStart]
 
-theorem hasIEMarker_renderAttrs (a : List Attr) (h : ∀ x ∈ a, AttrOK x)
-    (hm : ∀ x ∈ a, ∀ v, x.2 = some v → hasIEMarker v = false) (rest : Str) :
-    hasIEMarker (renderAttrs' a ++ rest) = hasIEMarker rest := by
+/-- the value of an attribute contains the marker -/
+def attrIE (x : Attr) : Bool :=
+  match x.2 with
+  | some v => hasIEMarker v
+  | none => false
+
+/-- token by token, decidable: the rendering of the token contains the marker (`tokIE_render`) -/
+def tokIE : Token → Bool
+  | .comment c => condStart c
+  | .start _ a => a.any attrIE
+  | .startend _ a => a.any attrIE
+  | .decl d => hasIEMarker d
+  | .pi p => hasIEMarker p
+  | _ => false
+
+theorem hasIEMarker_renderAttrs_eq (a : List Attr) (h : ∀ x ∈ a, AttrOK x) (rest : Str) :
+    hasIEMarker (renderAttrs' a ++ rest) = (a.any attrIE || hasIEMarker rest) := by
   induction a with
-  | nil => rfl
+  | nil => simp [renderAttrs']
   | cons x a ih =>
-    have iha := ih (fun y hy => h y (List.mem_cons_of_mem _ hy)) (fun y hy => hm y (List.mem_cons_of_mem _ hy))
+    have iha := ih (fun y hy => h y (List.mem_cons_of_mem _ hy))
     obtain ⟨n, v⟩ := x
     have hx := h (n, v) List.mem_cons_self
     have hn : NameOK n := by cases v <;> simp [AttrOK] at hx <;> first | exact hx | exact hx.1
     have hnlt : ∀ c ∈ n, c ≠ '<' := fun c hc => ne_lt_of_attrCh c (hn.2.1 c hc)
-    have bare : hasIEMarker (' ' :: n ++ renderAttrs' a ++ rest) = hasIEMarker rest := by
+    have bare : hasIEMarker (' ' :: n ++ renderAttrs' a ++ rest) = (a.any attrIE || hasIEMarker rest) := by
       rw [List.cons_append, List.cons_append, hasIEMarker_cons_ne ' ' _ (by decide), List.append_assoc,
         hasIEMarker_append_no_lt _ n hnlt, iha]
     cases v with
-    | none => simpa [renderAttrs', renderAttr] using bare
+    | none =>
+      have e0 : attrIE (n, none) = false := rfl
+      rw [List.any_cons, e0, Bool.false_or]
+      simpa [renderAttrs', renderAttr] using bare
     | some v =>
-      have hv := hm (n, some v) List.mem_cons_self v rfl
       by_cases hb : v = [] ∧ n ∈ binaryAttrs
-      · simpa [renderAttrs', renderAttr, hb] using bare
+      · have e0 : attrIE (n, some v) = false := by rw [hb.1]; rfl
+        rw [List.any_cons, e0, Bool.false_or]
+        simpa [renderAttrs', renderAttr, hb] using bare
       · have e : renderAttrs' ((n, some v) :: a) ++ rest
             = ' ' :: (n ++ ('=' :: '"' :: (escQ v ++ '"' :: (renderAttrs' a ++ rest)))) := by
           simp [renderAttrs', renderAttr, hb]
+        have e0 : attrIE (n, some v) = hasIEMarker v := rfl
         rw [e, hasIEMarker_cons_ne ' ' _ (by decide), hasIEMarker_append_no_lt _ n hnlt,
           hasIEMarker_cons_ne '=' _ (by decide), hasIEMarker_cons_ne '"' _ (by decide),
-          hasIEMarker_split '"' ieStop_quote (by decide), hasIEMarker_escQ, hv, iha]
-        rfl
+          hasIEMarker_split '"' ieStop_quote (by decide), hasIEMarker_escQ, iha, List.any_cons, e0, Bool.or_assoc]
 
-theorem hasIEMarker_tag (n : Str) (a : List Attr) (sc : Bool) (hn : TagNameOK n) (h : ∀ x ∈ a, AttrOK x)
-    (hm : ∀ x ∈ a, ∀ v, x.2 = some v → hasIEMarker v = false) :
-    hasIEMarker (('<' :: n) ++ renderAttrs a ++ closer sc) = false := by
+theorem hasIEMarker_tag_eq (n : Str) (a : List Attr) (sc : Bool) (hn : TagNameOK n) (h : ∀ x ∈ a, AttrOK x) :
+    hasIEMarker (('<' :: n) ++ renderAttrs a ++ closer sc) = a.any attrIE := by
   obtain ⟨⟨c, cs, rfl, hca⟩, hall, _⟩ := hn
   have hnlt : ∀ d ∈ c :: cs, d ≠ '<' := fun d hd => ne_lt_of_tagCh d (hall d hd)
   rw [renderAttrs_eq]
   have e : ('<' :: (c :: cs)) ++ renderAttrs' a ++ closer sc = '<' :: c :: (cs ++ (renderAttrs' a ++ closer sc)) := by simp
   rw [e, hasIEMarker_lt_cons c _ (alpha_not_nlbl c hca)]
   have e2 : c :: (cs ++ (renderAttrs' a ++ closer sc)) = (c :: cs) ++ (renderAttrs' a ++ closer sc) := rfl
-  rw [e2, hasIEMarker_append_no_lt _ _ hnlt, hasIEMarker_renderAttrs a h hm]
-  cases sc <;> decide
+  rw [e2, hasIEMarker_append_no_lt _ _ hnlt, hasIEMarker_renderAttrs_eq a h]
+  have : hasIEMarker (closer sc) = false := by cases sc <;> decide
+  rw [this, Bool.or_false]
 
-/-- **one token**: a well-formed token that meets the token-level condition renders without an opener -/
-theorem tokNoIE_render (t : Token) (h : TokOK t) (hm : TokNoIE t) : hasIEMarker (renderTok t) = false := by
+/-- **one token, exactly**: the rendering of a well-formed token contains the marker iff the token-level test
+    says so -/
+theorem tokIE_render (t : Token) (h : TokOK t) : hasIEMarker (renderTok t) = tokIE t := by
   cases t with
   | unknownDecl d => exact absurd h (by simp [TokOK])
   | data s =>
+    show _ = false
     rcases h with rfl | rfl | ⟨_, hall⟩
     · decide
     · decide
     · exact hasIEMarker_no_lt s (fun hlt => (hall '<' hlt).1 rfl)
   | entity n =>
+    show _ = false
     apply hasIEMarker_no_lt
     intro e
     simp [renderTok] at e
     exact ne_lt_of_entCh _ (h.2 _ e) rfl
   | charref n =>
+    show _ = false
     apply hasIEMarker_no_lt
     intro e
     simp [renderTok] at e
@@ -241,16 +263,16 @@ theorem tokNoIE_render (t : Token) (h : TokOK t) (hm : TokNoIE t) : hasIEMarker 
       · rcases hx with rfl | rfl <;> exact absurd e (by decide)
       · exact ne_lt_of_hex _ (hall _ e) rfl
   | end_ n =>
+    show _ = false
     have e : renderTok (.end_ n) = '<' :: '/' :: (n ++ ['>']) := by simp [renderTok]
     rw [e, hasIEMarker_lt_cons '/' _ (by decide)]
     apply hasIEMarker_no_lt
     intro e
     simp at e
     exact ne_lt_of_tagCh _ (h.2.1 _ e) rfl
-  | comment c =>
-    rw [hasIEMarker_comment c h]
-    exact hm
+  | comment c => exact hasIEMarker_comment c h
   | decl d =>
+    show _ = hasIEMarker d
     obtain ⟨hd, _⟩ := h
     obtain ⟨d0, d1, rfl⟩ : ∃ d0 d1, d = d0 :: d1 := by
       cases d with
@@ -265,20 +287,45 @@ theorem tokNoIE_render (t : Token) (h : TokOK t) (hm : TokNoIE t) : hasIEMarker 
       unfold ieOpenerPat
       rw [List.cons_append, matchItems_one_isSome, matchItems_one_isSome, matchItems_one_isSome]
       simp [hd0]
+    have hnil : hasIEMarker [] = false := rfl
     rw [e, hasIEMarker_cons, h0, hasIEMarker_cons_ne '!' _ (by decide),
-      hasIEMarker_split '>' ieStop_gt (by decide), hm]
-    rfl
+      hasIEMarker_split '>' ieStop_gt (by decide), hnil, Bool.or_false, Bool.false_or]
   | pi p =>
+    show _ = hasIEMarker p
     have e : renderTok (.pi p) = '<' :: '?' :: (p ++ '>' :: []) := by simp [renderTok]
+    have hnil : hasIEMarker [] = false := rfl
     rw [e, hasIEMarker_lt_cons '?' _ (by decide), hasIEMarker_cons_ne '?' _ (by decide),
-      hasIEMarker_split '>' ieStop_gt (by decide), hm]
-    rfl
+      hasIEMarker_split '>' ieStop_gt (by decide), hnil, Bool.or_false]
   | start n a =>
-    have := hasIEMarker_tag n a false h.1 h.2.2 hm
-    simpa [renderTok, closer] using this
+    have := hasIEMarker_tag_eq n a false h.1 h.2.2
+    simpa [renderTok, closer, tokIE] using this
   | startend n a =>
-    have := hasIEMarker_tag n a true h.1 h.2 hm
-    simpa [renderTok, closer] using this
+    have := hasIEMarker_tag_eq n a true h.1 h.2
+    simpa [renderTok, closer, tokIE] using this
+
+theorem any_attrIE_false (a : List Attr) :
+    a.any attrIE = false ↔ ∀ x ∈ a, ∀ v, x.2 = some v → hasIEMarker v = false := by
+  rw [List.any_eq_false]
+  constructor
+  · intro h x hx v hv
+    have := h x hx
+    unfold attrIE at this
+    rw [hv] at this
+    simpa using this
+  · intro h x hx
+    unfold attrIE
+    cases hv : x.2 with
+    | none => simp
+    | some v => simp [h x hx v hv]
+
+/-- the readable condition is the test -/
+theorem tokNoIE_iff (t : Token) : TokNoIE t ↔ tokIE t = false := by
+  cases t <;> simp only [TokNoIE, tokIE, any_attrIE_false]
+
+/-- **one token**: a well-formed token that meets the token-level condition renders without an opener -/
+theorem tokNoIE_render (t : Token) (h : TokOK t) (hm : TokNoIE t) : hasIEMarker (renderTok t) = false := by
+  rw [tokIE_render t h]
+  exact (tokNoIE_iff t).mp hm
 
 /-! ### token lists: no opener reaches across a token boundary -/
 
@@ -335,6 +382,15 @@ theorem hasIEMarker_renderToks (ts : List Token) (h : ListOK ts) :
   | cons t ts ih =>
     obtain ⟨ht, hf, hts⟩ := h
     rw [renderToks, hasIEMarker_render_step t ht _ hf, ih hts, List.any_cons]
+
+/-- the same with the token-level test: the marker stands in the rendering iff some token has it -/
+theorem hasIEMarker_renderToks_tok (ts : List Token) (h : ListOK ts) :
+    hasIEMarker (renderToks ts) = ts.any tokIE := by
+  rw [hasIEMarker_renderToks ts h]
+  induction ts with
+  | nil => rfl
+  | cons t ts ih =>
+    rw [List.any_cons, List.any_cons, tokIE_render t h.1, ih h.2.2]
 
 theorem renderToks_no_marker_of (ts : List Token) (h : ListOK ts) (hm : ∀ t ∈ ts, TokNoIE t) :
     hasIEMarker (renderToks ts) = false := by
